@@ -2,6 +2,7 @@
 from hypothesis import strategies as st
 
 from pbt import build, gens, oracles as O
+from pbt.common import build_input
 from pbt.runner import Outcome
 from pbt.sut import Bar, Key, MusicMapping
 
@@ -74,16 +75,25 @@ def strategy(params, shard, nshards):
 def check(case):
     out = Outcome()
     n = case["n"]
-    seq = build.sequence(case["seq"])
+    built = build_input(out, case["seq"])
+    if built is None:
+        return out
+    seq = built[0]
     bar = None
-    if case["bar"]:
-        b = case["bar"]
-        bar = Bar(seq, b["num"], b["den"], Key(b["key"]) if b["key"] else None)
-        seq = bar.sequence
-        out.label("bar")
-    ev0, dur0 = O.seq_events(seq)
-    notes0, an0 = O.notes(ev0)
-    assert not an0, an0
+    try:
+        if case["bar"]:
+            b = case["bar"]
+            bar = Bar(seq, b["num"], b["den"], Key(b["key"]) if b["key"] else None)
+            seq = bar.sequence
+            out.label("bar")
+        ev0, dur0 = O.seq_events(seq)
+        notes0, an0 = O.notes(ev0)
+    except Exception as e:
+        out.inconclusive = f"bar-construction-raised:{type(e).__name__}"
+        return out
+    if an0 or sorted(notes0) != sorted(built[3]):
+        out.inconclusive = "bar-construction-deviates"
+        return out
     keys0 = [e for e in ev0 if e[1] == O.KS]
     pitches0 = [x[1] for x in notes0]
     expect_flag = any(wrap(p + n) != p + n for p in pitches0)
